@@ -33,3 +33,8 @@ register("C11", ["c11"],
          "Static analysis of Schedule::view_leader and Schedule::new: may-panic inventory over the call-graph closure (totality), term and guard-table checks that the returned key is indexed through the leaders list built from exactly the leader-flagged validators and that the weighted draw is reduced modulo the very sum the cumulative walk covers (eligible-only), container-kind facts (BTreeMap, no hashed iteration: order independence), an API census of the closure against clock/RNG/environment prefixes (determinism), and the frequency-0 division. Rotation cadence and weight-proportional share are value-level and not decided.",
          ["num_bigint / Keccak256 are deterministic pure functions"],
          TRUSTED)
+
+register("C16", ["c16"],
+         "Static guard tables and who-may-call facts: the selection function's full 12-row table (sender, kind, view order) is enumerated on its MIR; the filter term is verify().is_ok(); the prunable channel's send is decided structurally (filtered values never reach the buffer, retain/keep tables, append iff keep, only retain/push_back/pop_front mutate the VecDeque => FIFO among retained); in the replica, cache insertions for commit and timeout votes are admitted only under membership/view/newer-than-last-vote/valid-signature/valid-message (144 valuations each), pruning to active views post-dominates insertion and a formed certificate is removed. The numeric size bound follows from these facts by the argument in DESIGN.md, not computed by the tool.",
+         ["tokio watch::send_modify runs the closure under the watch lock"],
+         TRUSTED)
